@@ -10,8 +10,8 @@ COQ_DIR = "C18"
 RUN_MOD = "C18.Run"
 MODEL_TARGETS = ["C18/Run.vo"]
 PROOF_TARGETS = ["C18/Lemmas.vo", "C18/LemmasLadder.vo", "C18/LemmasCoord.vo", "C18/LemmasRange.vo", "C18/LemmasSession.vo",
-                 "C18/LemmasMulti.vo", "C18/TransEq.vo"]
-PROPS = ["C18/Props.v", "C18/PropsTranslated.v"]
+                 "C18/LemmasMulti.vo", "C18/TransEq.vo", "C18/LemmasText.vo"]
+PROPS = ["C18/Props.v", "C18/PropsTranslated.v", "C18/PropsText.v"]
 ALLOWED_AXIOMS = []
 IMPL_TIMEOUT = 10.0
 COQ_SHARD = 100
@@ -40,13 +40,21 @@ RULE = ("generated worksheets (harness-side mock of an openpyxl worksheet): 1-5 
         "values of the objects (as in a session) and every object is observed again.  All single and multi readings: worksheet "
         "titles vary (with spaces, quotes, brackets), str(obj) and get_attr_origin(..., incl_ws=True) (every attribute; every key, "
         "not strict; an unknown attribute) are observed; float cells (2.5, 1.0 == True, 0.0 == False, 1e16, a float title).  "
+        "Cell texts (round 4): with a small probability in every family, and in a family of its own (gen_text_case: mostly list / set / "
+        "str columns and ranged dicts of lists), the words, the padding, the blank cells and the titles contain every str.isspace code "
+        "point, the str.splitlines() boundaries that are not new lines (VT FF FS GS RS NEL LS PS, a lone CR, CR LF) and look-alikes that "
+        "are neither white space nor separators (NUL, ZWSP, BOM, ';', fullwidth / Arabic comma, ...) strictly inside an element, at its "
+        "border, next to ',' and new line, as a whole element; list cells use ',', new line, CR LF and doubled separators, also at the "
+        "ends of the text; none / true / false values are respelled (padded, other case, fullwidth); int columns hold texts int() would "
+        "accept (' 12', '12\\n', '+12', '1_000', fullwidth and Arabic-Indic digits, 12.0).  "
         "Non-trivial = distinct case that yields at least one object (session: at least two readings that yield an object).")
 TRUSTED_BASE = [
     "gen/C18_Consts.v: CellBool/_CellReader value sets, origin markers, the 'blank first' and '*' literals are read from "
     "ak/xlsread.py by harness/props/c18.py:gen_consts (ast, fail-closed); the same extractor insists that get_attr_origin's "
     "range text is sorted(origins.values(), key=_coord_sort_key) and that _coord_sort_key is statement for statement the "
     "function modelled as Model.coord_sort_key (rstrip of the ASCII digits, (len(col), col, int(row)))",
-    "python semantics used by the model: str.strip()/str.isspace() code points, str.rstrip(chars), int() of an ASCII digit "
+    "python semantics used by the model: str.strip()/str.isspace() code points (Model.spaces: all 29 of them are generated as padding "
+    "and inside words, so a difference from the running python is a disagreement), str.rstrip(chars), int() of an ASCII digit "
     "string, str(int)/str(bool), == and hash across int/bool/str/None, str and tuple ordering, stability of sorted(), dict "
     "insertion order (compared on every run by the correspondence check)",
     "the harness-side mock worksheet yields rectangular rows from A1 with openpyxl coordinates (column letters + 1-based row)",
@@ -417,6 +425,20 @@ class _Worksheet:
 # ------------------------------------------------------------------ cases
 CONV_KINDS = ["str", "int", "bool", "list", "set"]
 SPACES = [" ", "\t", "\n", "\u00a0", "\u2003", "\x1f", "\u3000", "\x85"]
+# round 4: the character classes the converters depend on.
+# every code point str.strip() removes (str.isspace of the running python; the model's table is Model.spaces: a difference shows as a
+# disagreement of model and implementation on the cells padded with the character)
+WS_ALL = [chr(c) for c in range(0x3100) if chr(c).isspace()]
+# where str.splitlines() breaks a text although it is neither ',' nor a new line for CellList
+LINE_BREAKS = ["\x0b", "\x0c", "\r", "\x1c", "\x1d", "\x1e", "\x85", "\u2028", "\u2029", "\r\n"]
+# look like blanks / separators / digits, but are neither white space nor ',' nor '\n'
+NOT_WS = ["\x00", "\x08", "\x1b", "\x7f", "\u180e", "\u200b", "\u200d", "\u2060", "\ufeff", ";", "|", "\uff0c", "\u060c",
+          "\\n", "/", "'", "\"", "\u3001", "_", "."]
+TXT_P = [0.03]      # probability of an "exotic" choice; gen_text_case raises it
+
+
+def _x(rng):
+    return rng.random() < TXT_P[0]
 
 
 def _cv(kind, **kw):
@@ -425,25 +447,70 @@ def _cv(kind, **kw):
     return d
 
 
+def _ws(rng):
+    if _x(rng):
+        return rng.choice(WS_ALL) if rng.random() < 0.8 else rng.choice(LINE_BREAKS)
+    return rng.choice(SPACES)
+
+
 def _blank(rng):
     r = rng.random()
     if r < 0.7:
         return None
     if r < 0.85:
         return ""
-    return "".join(rng.choice(SPACES) for _ in range(rng.randint(1, 2)))
+    return "".join(_ws(rng) for _ in range(rng.randint(1, 2)))
+
+
+def _plain_word(rng):
+    return rng.choice(["a", "bb", "Zed", "x y", "7", "k-1", "é", "True", "None", "v", "0", "-"])
 
 
 def _word(rng):
-    return rng.choice(["a", "bb", "Zed", "x y", "7", "k-1", "é", "True", "None", "v", "0", "-"])
+    w = _plain_word(rng)
+    if not _x(rng):
+        return w
+    if rng.random() < 0.12:
+        # nothing but look-alikes: not white space, so this IS a value (an element of a list cell, a non-blank cell)
+        return "".join(rng.choice(NOT_WS) for _ in range(rng.choice([1, 1, 2])))
+    # a character of one of the three classes strictly INSIDE the word (it must stay there), sometimes two
+    for _ in range(rng.choice([1, 1, 1, 2])):
+        inner = rng.choice(rng.choice([LINE_BREAKS, LINE_BREAKS, WS_ALL, NOT_WS]))
+        w = w + inner + _plain_word(rng)
+    if rng.random() < 0.3:
+        # ... or at its border, where only white space goes away
+        edge = rng.choice(rng.choice([LINE_BREAKS, WS_ALL, NOT_WS, NOT_WS]))
+        w = edge + w if rng.random() < 0.5 else w + edge
+    return w
 
 
 def _pad(rng, s):
     if rng.random() < 0.25:
-        s = rng.choice(SPACES) + s
+        s = _ws(rng) + s
     if rng.random() < 0.25:
-        s = s + rng.choice(SPACES)
+        s = s + _ws(rng)
+    if _x(rng) and rng.random() < 0.5:
+        s = "".join(_ws(rng) for _ in range(rng.randint(1, 3))) + s + "".join(_ws(rng) for _ in range(rng.randint(0, 3)))
     return s
+
+
+def _respell(rng, v):
+    """a cell text that a sloppy comparison (strip / lower / int()) would take for v"""
+    if isinstance(v, bool) or v is None:
+        v = str(v)
+    if isinstance(v, int):
+        t = str(v)
+        return rng.choice([t, " " + t, t + "\n", t + ".0", "+" + t, "0" + t, t.translate({48 + i: 0xff10 + i for i in range(10)}),
+                           t.translate({48 + i: 0x660 + i for i in range(10)}), t[:1] + "_" + t[1:] if len(t) > 1 else t + "_",
+                           float(v)])
+    if not isinstance(v, str):
+        return v
+    return rng.choice([_ws(rng) + v, v + _ws(rng), v.upper(), v.lower(), v.swapcase(), v.capitalize(), v + rng.choice(NOT_WS),
+                       rng.choice(NOT_WS) + v, _pad(rng, v), "".join(chr(ord(c) + 0xfee0) if "!" <= c <= "~" else c for c in v)])
+
+
+LIST_SEPS = [",", "\n", ", ", ",\n"]
+LIST_SEPS_X = [",", "\n", "\r\n", ",\r\n", "\r\n,", "\n\r", "\n\n", ",,", " , ", "\t,\t", ",\n,"]
 
 
 def _cell_for(rng, cv, p_blank=0.12, p_bad=0.03):
@@ -452,9 +519,18 @@ def _cell_for(rng, cv, p_blank=0.12, p_bad=0.03):
     r = rng.random()
     if r < p_blank:
         return _blank(rng)
+    if _x(rng) and rng.random() < 0.15:
+        # near misses of the converter's own special values (none / true / false values are compared as they are)
+        pool = list(cv.get("none", [])) + (list(cv.get("true", ["v", 1, "1", True, "True"])) +
+                                           list(cv.get("false", [None, "", False, "False"])) if k == "bool" else [])
+        pool = [v for v in pool if v != ""]
+        if pool:
+            return _respell(rng, rng.choice(pool))
     bad = r < p_blank + p_bad
     if k == "int":
         if bad:
+            if _x(rng):
+                return _respell(rng, rng.choice([0, 1, 7, 12, -3, 2020, 1000]))
             return rng.choice(["12", "x", " 5", 2.5, 3.0])
         return rng.choice([0, 1, 2, 7, 10, -3, 2019, 2020, 123456789012, True, False]) if rng.random() < 0.3 else rng.randint(-50, 3000)
     if k == "bool":
@@ -463,19 +539,29 @@ def _cell_for(rng, cv, p_blank=0.12, p_bad=0.03):
         tv = cv["true"] if "true" in cv else ["v", 1, "1", True, "True"]
         fv = cv["false"] if "false" in cv else [None, "", False, "False", 0]
         pool = tv if (rng.random() < 0.5 and tv) or not fv else fv
+        if _x(rng) and rng.random() < 0.5 and pool:
+            return _respell(rng, rng.choice(pool))      # ' v', 'V', 'true', 'TRUE', '1 ', fullwidth: compared as they are
         if rng.random() < 0.05:
             return rng.choice([1.0, 0.0, -0.0])       # float cells: 1.0 == 1 == True, 0.0 == False
         return rng.choice(pool) if pool else "yes"
     if k in ("list", "set"):
         if bad:
             return rng.choice([5, True, 1.5])
-        n = rng.randint(0, 4)
+        exotic = _x(rng)
+        n = rng.randint(0, 5 if exotic else 4)
         items = [_pad(rng, _word(rng)) if rng.random() < 0.85 else "" for _ in range(n)]
+        if exotic:
+            # an element that is nothing but a look-alike (BOM, ZWSP, NUL, ';' ...): not white space, so it is an element
+            items = [_pad(rng, rng.choice(NOT_WS)) if rng.random() < 0.1 else it for it in items]
         out = ""
         for i, it in enumerate(items):
             if i:
-                out += rng.choice([",", "\n", ", ", ",\n"])
+                out += rng.choice(LIST_SEPS_X if exotic else LIST_SEPS)
             out += it
+        if exotic and rng.random() < 0.3:
+            # separators / line breaks at the very ends of the text
+            e = rng.choice(LIST_SEPS_X + LINE_BREAKS)
+            out = e + out if rng.random() < 0.5 else out + e
         return out
     # str
     if rng.random() < 0.2:
@@ -499,6 +585,8 @@ def _default(rng):
 
 
 TITLE_POOL = ["Id", "Name", "Status", "Year", "Month", "Day", "Person's name", "Event Id", "kind", "2020", "x y", "Ünï", "N°"]
+TITLE_POOL_X = ["Per\x0bson", "Tag\rset", "a\u2028b", "to be\x85continued", "N\u00a0o", "two\nlines", "x\x1cy", "Id\ufeff", "\u200bId",
+                "Name;", "a,b", "NAME", "name", "Status\x00"]
 UNKNOWN_POOL = ["math", "science", "history", "cs", "art", "pe", "bio", "u1", "u2", "q 1", "42", "zz", "1.5"]
 
 
@@ -507,6 +595,9 @@ def gen_sheet_case(rng, wide=False, force=None):
     force = force or {}
     n_attrs = rng.randint(1, 5)
     titles_pool = rng.sample(TITLE_POOL, len(TITLE_POOL))
+    if _x(rng):
+        # titles with a line-break / blank / look-alike character inside (a title is str(cell.value).strip(), compared as it is)
+        titles_pool += rng.sample(TITLE_POOL_X, 3)
     rules = []
     known_cols = []     # (title, conv) of columns present in the sheet for plain attrs
     n_range = 0
@@ -540,7 +631,8 @@ def gen_sheet_case(rng, wide=False, force=None):
             prev_range = next((x for x in rules if x["t"] == "range"), None)
             ru = {"t": "range", "dict": rng.random() < 0.5,
                   "cv": dict(prev_range["cv"]) if prev_range is not None and rng.random() < 0.85 else
-                  _conv(rng, force.get("rkinds", ["bool", "int", "str", "bool", "list"]) if rng.random() < 0.8 else CONV_KINDS)}
+                  _conv(rng, force.get("rkinds", ["bool", "int", "str", "bool", "list"]) if rng.random() < 0.8 or "rkinds" in force
+                        else CONV_KINDS)}
             if rng.random() < 0.4:
                 ru["def"] = _default(rng)
             rules.append(ru)
@@ -608,6 +700,27 @@ def gen_sheet_case(rng, wide=False, force=None):
 WS_TITLES = ["Sheet 1", "pupils", "a b c", "Ünï x", "'q'", "x)y", " lead", "tab\tx", "2020", "two  spaces", "(", "n/a"]
 
 
+def gen_text_case(rng, wide=False):
+    """round 4: a reading whose cell texts are full of the characters the converters could treat differently from what is documented:
+    every white space code point (str.strip), the str.splitlines() boundaries that are not '\\n' (VT FF FS GS RS NEL LS PS, a lone
+    CR, CR LF), look-alikes that are NOT white space / separators (ZWSP, BOM, NUL, ';', fullwidth comma, fullwidth / Arabic digits,
+    '1_000'), inside the elements of list / set cells, at their borders, next to ',' and '\\n'; respelled none / true / false values;
+    strings that int() would accept in int columns.  Mostly list / set / str columns and ranged dicts of lists."""
+    old = TXT_P[0]
+    TXT_P[0] = rng.choice([0.3, 0.5, 0.7])
+    try:
+        force = {"kinds": rng.choice([["list", "set"], ["list", "set", "str"], ["str", "bool", "int"], ["list", "set", "str", "bool", "int"]]),
+                 "rkinds": rng.choice([["list"], ["list", "set", "str"], ["bool", "str", "int", "list"]]),
+                 "p_bad": rng.choice([0.0, 0.0, 0.05, 0.15])}
+        if rng.random() < 0.7:
+            force["ladder"] = False
+        c = gen_sheet_case(rng, wide=wide, force=force)
+    finally:
+        TXT_P[0] = old
+    c["text"] = True
+    return c
+
+
 def _ws_title(rng):
     return "sheet1" if rng.random() < 0.4 else rng.choice(WS_TITLES)
 
@@ -635,6 +748,7 @@ def _finish_sheet(rng, cols, force):
     # ---- data rows
     n_rows = rng.choice([0, 1, 2, 2, 3, 3, 4, 4, 5, 6, 8])
     p_bad = 0.0 if rng.random() < 0.75 else 0.03
+    p_bad = force.get("p_bad", p_bad)
     data = []
     for _ in range(n_rows):
         row = []
@@ -694,6 +808,9 @@ def gen_cases(rng, tier):
         cases.append(gen_sheet_case(rng, force={"ladder": True, "stop": rng.choice(["blank all", "blank all", "blank first"])}))
     for i in range(400 if big else 40):
         cases.append(gen_sheet_case(rng, wide=True, force={"ladder": rng.random() < 0.3}))
+    # round 4: cell texts with every white space / line boundary / look-alike character
+    for i in range(1800 if big else 240):
+        cases.append(gen_text_case(rng, wide=(i % 40 == 0)))
     # ragged rows (the mock can produce them, openpyxl cannot): correspondence only
     for i in range(100 if big else 12):
         c = gen_sheet_case(rng)
@@ -730,6 +847,8 @@ def search_cases(rng, tier):
     out = []
     for i in range(4000):
         out.append(gen_sheet_case(rng, wide=(i % 6 == 0), force={"ladder": True} if i % 3 == 0 else None))
+    for i in range(2000):
+        out.append(gen_text_case(rng))
     for i in range(1500):
         out.append(gen_session_case(rng, "hier" if i % 2 else "alias"))
     for i in range(2500):
@@ -759,6 +878,8 @@ def kind(case):
         parts.append("ragged")
     if case.get("misuse"):
         parts.append("misuse")
+    if case.get("text"):
+        parts.append("text")
     return "-".join(parts)
 
 
@@ -2798,13 +2919,17 @@ LEVEL_TEXT = ("Full (model level, all sheets / rule sets, unbounded rows and col
               "mixin reading is modelled as the direct reading with the class's own (or inherited) ATTR_RULES, STOP_ON and LADDER_FORMAT "
               "and is also compared in-process with iter_table called with exactly these (signatures mixin-ignores-stop-on-ladder -- "
               "fixed finding, 357b521 -- and mixin-direct).  "
+              "Converters at the level of code points (PropsText.v): list_cell_split_spec (a list / set cell is split at ',' and at new "
+              "line and nowhere else: the pieces are the maximal runs free of both, uniquely determined; each stripped, empty ones dropped), "
+              "list_cell_one_element, str_strip_spec (strip removes exactly a prefix and a suffix of str.isspace code points), "
+              "int_cell_no_text (CellInt converts no text), ex_list_texts.  "
               "Tested only (correspondence + oracle, no theorem): that a reading raises only where a declared rule cannot be applied "
               "(oracle signature unexpected-error), that a row yields None only when its id values are all None (spurious-none), "
               "logic_id = the id attribute values (logic-id), the map entry points (map-reading).  The ladder theorems for one rule set "
               "hold for any set of known names (read_table_k).  Theorems are about the Gallina model; its agreement with "
               "ak/xlsread.py is checked per run, not proved.")
 LEVEL_NOTE = ("For translated_key_eq, translated_range_text_eq, range_text_extremes_translated, range_text_translated (closed under the global "
-              "context; 38 statements in all) the trusted part is the translator harness/lib/pytranslate.py + coq/Common/PyLib.v "
+              "context; 43 statements in all) the trusted part is the translator harness/lib/pytranslate.py + coq/Common/PyLib.v "
               "(self-tested against CPython, not verified) and the declared parameter types, not the hand model's reading of the sort: "
               "an edit of _coord_sort_key or of the range-text branch that changes behaviour breaks TransEq.v (or leaves the subset = "
               "broken proof step).  Otherwise -- Trusted: Coq kernel + vm_compute; fidelity of the hand model (checked by correspondence, not proved); "
